@@ -18,7 +18,8 @@
 EXTENDS Naturals, Sequences, FiniteSets, TLC, Json, IOUtils, TLCExt
 
 Traces == JsonDeserialize(IOEnv.TRACE_FILE)
-CONSTANT Hs
+CONSTANT Hs,
+         Focus      \* "" = report the first clause that fails; otherwise only this clause is reported (the others are other properties')
 VARIABLES tid, l, now, alive, flagged, when, cancelled, selfexited, due, obj, rematch, gonewhilealive, paused, exiting, verdict
 vars == <<tid, l, now, alive, flagged, when, cancelled, selfexited, due, obj, rematch, gonewhilealive, paused, exiting, verdict>>
 T == Traces[tid].events
@@ -32,7 +33,7 @@ Init == /\ tid \in 1..Len(Traces) /\ l = 1 /\ now = 0
         /\ rematch = [h \in Hs |-> FALSE] /\ gonewhilealive = FALSE /\ paused = FALSE /\ exiting = FALSE
         /\ verdict = "ok"
 
-Bad(v) == verdict' = IF verdict = "ok" THEN v ELSE verdict
+Bad(v) == verdict' = IF verdict = "ok" /\ (Focus = "" \/ Focus = v) THEN v ELSE verdict
 Good == UNCHANGED verdict
 Registered(h) == Conf[h].kind # "none"
 
